@@ -215,6 +215,8 @@ static bool dk_roots(const Poly &p, std::vector<cq> &z)
         return false;
     for (auto &v : z) {
         rq s;
+        if (absq(v) < 1e-30Q)
+            v = mkc(0, 0); // exact zero root (x | p)
         cq r = peval(pm, v, &s);
         if (absq(r) > 1e-28Q * s)
             return false;
@@ -392,7 +394,8 @@ static VSet interp(const Basic &s, Interp *images)
             Value v = refeval(*e, empty);
             if (!v.ok) {
                 VSet f = fail("element:" + v.why);
-                f.nonnumber = (v.why == "nonfinite-leaf");
+                // nan/zoo/oo, or a Set / Boolean object sitting where a number should be
+                f.nonnumber = (v.why == "nonfinite-leaf" || v.why.rfind("unsupported-node", 0) == 0 || v.why.rfind("boolean-node", 0) == 0);
                 return f;
             }
             addval(r.vals, v.v);
@@ -770,6 +773,19 @@ static std::string eq_sigbase(const Case &cs)
         std::string bc = rational_badcast_path(cs.f, cs.dom);
         if (!bc.empty())
             path += ">" + bc;
+        else if (!is_a<Mul>(*cs.f)) {
+            // solve_rational computes solve(num) \ solve(den): observe the form of the denominator's solution set
+            try {
+                RCP<const Basic> num, den;
+                as_numer_denom(cs.f, outArg(num), outArg(den));
+                if (has_symbol(*den, *X)) {
+                    std::string t = tname(solve(den, X, domset(cs.dom)));
+                    if (t != "FiniteSet" && t != "EmptySet")
+                        path += ":den=" + t;
+                }
+            } catch (std::exception &) {
+            }
+        }
     }
     return path + "[" + DOMN[cs.dom] + "]";
 }
@@ -782,6 +798,8 @@ static void run_eq(const Case &cs, Ctx &c)
     if (!E.ok) {
         c.count(K_ORACLE_FAIL);
         c.outcome("oracle:" + E.why);
+        if (getenv("VERIF_C30_DEBUG"))
+            fprintf(stderr, "DBG oracle %s: %s\n", E.why.c_str(), what.c_str());
         return;
     }
     bool castbad = false;
@@ -806,11 +824,13 @@ static void run_eq(const Case &cs, Ctx &c)
     std::string shape = tname(s);
     if (!got.ok) {
         if (got.nonnumber) {
-            c.violation(eq_sigbase(cs) + ":non-number-member", what + " returned " + sstr(s) + " which contains a non-finite member");
+            c.violation(eq_sigbase(cs) + ":non-number-member", what + " returned " + sstr(s) + " which contains a member that is not a number (" + got.why + ")");
             return;
         }
         c.count(got.why.rfind("element:", 0) == 0 ? K_UNDECIDED_ELEMENT : K_UNDECIDED_SETFORM);
         c.outcome(shape + " undecided " + got.why);
+        if (getenv("VERIF_C30_DEBUG"))
+            fprintf(stderr, "DBG undecided %s: %s = %s\n", got.why.c_str(), what.c_str(), sstr(s).substr(0, 300).c_str());
         return;
     }
     c.count(got.evaluated ? K_JUDGED_EVALUATED : K_JUDGED_UNEVALUATED_FORM);
